@@ -1,6 +1,9 @@
 package checks
 
 import (
+	"fmt"
+	"strings"
+
 	"github.com/meshplus/bitxhub/verifharness/fix"
 	"github.com/meshplus/bitxhub/verifharness/mc"
 )
@@ -19,6 +22,7 @@ func C06(c *mc.Ctx) {
 		depth = 7
 	}
 	runIC(c, "C06", c06Oracle, fix.Options{}, "icmc", alphabet, depth)
+	c06Groups(c)
 	fix.Cleanup()
 	c.Set("rule", "BFS over block histories of requests with timeout T in {0,1,2,3,huge,-1} (several sharing an expiry height, begin-failed ones), receipts before / in / after the expiry block, empty blocks and reopen between H and H+T; after every block the block's timeout notifications and every transaction status are compared with the reference model (expiry E=H+T, listed once for the source chain iff still BEGIN at the end of block E)")
 	c.Assume("all proofs valid (HappyRule)")
@@ -30,4 +34,146 @@ func C06(c *mc.Ctx) {
 func init() {
 	Registry["C06"] = C06
 	Replayers["c06.icmc"] = icReplayer("C06", c06Oracle)
+	Replayers["c06.groups"] = func(c *mc.Ctx, r map[string]interface{}) {
+		group, _ := r["group"].(string)
+		T, _ := r["timeout"].(float64)
+		in := &c06GroupInst{c05Inst: newC05Inst(group, int64(T))}
+		path := strList(r["ops"])
+		for i, op := range path {
+			in.applyBlock(op)
+			in.checkTimeouts(c, path[:i+1], group)
+		}
+		in.w.R.Close()
+	}
+}
+
+// ---- one-to-many groups ("the same holds for a one-to-many group as a whole") ----
+//
+// The group engine of C05 (real executor, model of begun / succeeded / doomed / expiry)
+// is explored again with the timeout oracle: a group is listed in a block's timeout
+// notifications exactly when the model says it expires in that block (it began at H with
+// T>0, is not complete and has not failed by H+T); a group that already failed - at
+// begin of a later child or by receipt - or completed is never listed, and an empty
+// block in which nothing expires changes no status of the group.
+
+type c06GroupInst struct {
+	*c05Inst
+	prev map[string]int // child id -> status after the previous block
+}
+
+func (in *c06GroupInst) statuses() map[string]int {
+	out := map[string]int{}
+	for _, ch := range in.g.children {
+		id := in.g.childID(ch)
+		if s, ok := viewTxStatus(in.w.R, id); ok {
+			out[id] = s
+		}
+	}
+	return out
+}
+
+func (in *c06GroupInst) checkTimeouts(c *mc.Ctx, path []string, group string) {
+	st := in.last
+	if st == nil {
+		return
+	}
+	rep := map[string]interface{}{"engine": "c06.groups", "ops": path, "group": group, "timeout": in.T}
+	bad := func(sig, format string, a ...interface{}) {
+		c.Report("C06|group|"+sig, fmt.Sprintf(format, a...)+fmt.Sprintf(" [group %s T=%d, block %d = %s] after %s", group, in.T, st.height, st.desc, joinOps(path)), rep)
+	}
+	c.Add("group_oracle_evaluations", 1)
+	ids := map[string]bool{}
+	for _, ch := range in.g.children {
+		ids[in.g.childID(ch)] = true
+	}
+	listed := map[string]int{}
+	if st.res.Meta != nil {
+		for chain, l := range st.res.Meta.TimeoutCounter {
+			for _, e := range l.Slice {
+				for id := range ids {
+					if strings.Contains(e, id) && chain == in.g.srcChain {
+						listed[id]++
+					}
+				}
+			}
+		}
+	}
+	fires := st.doomNow && st.trigger == -1
+	if st.ambiguous {
+		// a failure receipt for a child that had already reported success arrived in this
+		// block: whether it fails the group (then nothing expires) is implementation-defined
+		// (see C05); the timeout oracle does not judge this block
+		c.Add("group_blocks_not_judged_contradicting_receipt", 1)
+		in.prev = in.statuses()
+		return
+	}
+	if fires {
+		c.Add("group_timeouts_expected", 1)
+		for id, cs := range in.m.st {
+			if cs.begun && listed[id] != 1 {
+				bad("timeout-not-announced", "the group expires in this block but begun child %s is listed %d times for the source chain", id[len(id)-24:], listed[id])
+			}
+		}
+	} else if len(listed) > 0 {
+		why := "it has not expired"
+		switch {
+		case in.m.doomed:
+			why = fmt.Sprintf("it already failed in block %d", in.m.doomedAt)
+		case in.allSucc():
+			why = "it completed successfully"
+		}
+		c.Add("group_blocks_without_expected_timeout_but_listed", 1)
+		bad("listed-as-timed-out-wrongly|"+strings.Fields(why)[1], "children of the group are listed as timed out (%v) although %s", listed, why)
+	}
+	now := in.statuses()
+	if st.desc == "empty" && !fires && in.prev != nil {
+		for id, s := range now {
+			if p, ok := in.prev[id]; ok && p != s {
+				bad("status-altered-without-timeout|"+stName(p)+"->"+stName(s), "an empty block in which the group does not expire changes the status of child %s from %s to %s", id[len(id)-24:], stName(p), stName(s))
+			}
+		}
+	}
+	in.prev = now
+}
+
+func c06Groups(c *mc.Ctx) {
+	type cfg struct {
+		group string
+		T     int64
+		depth int
+		ops   []string
+	}
+	cfgs := []cfg{
+		{"G", 2, 5, []string{"b:c1", "b:c2", "r:c1:s", "r:c2:s", "r:c2:f", "empty"}},
+		{"H", 2, 5, []string{"b:c1", "b:c2", "b:c3", "r:c1:s", "r:c2:s", "empty"}},
+		{"H", 3, 6, []string{"b:c1", "b:c3", "r:c1:s", "empty"}},
+	}
+	if c.Quick() {
+		cfgs = []cfg{
+			{"G", 2, 4, []string{"b:c1", "b:c2", "r:c1:s", "r:c2:s", "r:c2:f", "empty"}},
+			{"H", 2, 4, []string{"b:c1", "b:c2", "b:c3", "r:c1:s", "empty"}},
+			{"H", 3, 5, []string{"b:c1", "b:c3", "empty"}},
+		}
+	}
+	for _, k := range cfgs {
+		k := k
+		b := &mc.BFS{C: c, Name: fmt.Sprintf("groups-%s-T%d", k.group, k.T), MaxDepth: k.depth,
+			Init:    func() mc.Instance { return &c06GroupInst{c05Inst: newC05Inst(k.group, k.T)} },
+			Enabled: func(x mc.Instance, d int) []string { return k.ops },
+			Apply: func(x mc.Instance, op string, path []string) (bool, bool) {
+				return x.(*c06GroupInst).applyBlock(op), false
+			},
+			Key: func(x mc.Instance) string {
+				in := x.(*c06GroupInst)
+				return in.w.R.State.Digest() + in.w.R.Chain.Digest() + fmt.Sprint(in.m.doomed, in.m.doomedAt)
+			},
+			Check: func(x mc.Instance, path []string) { x.(*c06GroupInst).checkTimeouts(c, path, k.group) },
+			Close: func(x mc.Instance) { x.(*c06GroupInst).w.R.Close() },
+		}
+		b.Run()
+	}
+	c.Set("rule_groups", "BFS over block histories of one-to-many groups (2 children on 2 chains; 3 children whose third destination is unregistered) with T=2/3: begins of children in the same or later blocks, success/failure receipts, empty blocks; per block the timeout notifications of the group are compared with the group expiry model (listed for the source chain exactly in block H+T of the first accepted child if the group neither completed nor failed before), and an empty block without expiry must not change any child status")
+	if c.Get("group_timeouts_expected") == 0 {
+		c.HarnessError("vacuous: no group timeout expected by the model")
+	}
 }
